@@ -2,7 +2,9 @@
 (* What each ingest protocol can express (from the protocol definitions, not from siglens). *)
 LogP == {"es_bulk", "es_doc", "splunk_hec", "loki_json", "loki_pb", "otlp_logs", "otlp_traces"}
 MetP == {"otsdb", "prom_rw", "otlp_metrics"}
-KindsAll == {"str", "unicode", "nansub", "int", "neg", "float", "bool", "bigint", "nested", "array"}
+\* "reserved": a nested object whose members are named like the reserved top-level keys of the store / of the protocols
+\* (timestamp, _index, _id, _type, time, index, host, source) at depth 2 and 3: they are ordinary attributes there
+KindsAll == {"str", "unicode", "nansub", "int", "neg", "float", "bool", "bigint", "nested", "array", "reserved"}
 MetricKindsAll == {"m_int", "m_frac", "m_neg", "m_big", "m_small", "m_tagnan", "m_tagunicode", "m_tagescapes"}
 LevelsAll == {"record", "resource", "scope"}
 \* the same instant in every encoding a protocol accepts: numbers and their quoted (string) forms
